@@ -4,7 +4,7 @@
    Minneapolis.  Non-fuzzy arithmetics (Fixed / integer / Guarded guard 0), where "lowest" is lowest. *)
 From Coq Require Import ZArith List Bool String Lia.
 From Droop Require Import Model.KernelBase Model.Str Model.Arith Model.Prelude Model.State Model.Prims Model.RulesGregory Model.RulesMeek
-  Proofs.Zlike Proofs.Status Proofs.Ties Proofs.Forward Proofs.ForwardOps Proofs.Conserve.
+  Proofs.Zlike Proofs.SortLemmas Proofs.Status Proofs.Ties Proofs.Forward Proofs.ForwardOps Proofs.Conserve.
 Import ListNotations.
 Open Scope Z_scope.
 
@@ -239,5 +239,90 @@ Proof.
     { unfold defeat. destruct (find_cand_in A _ _ Hi1) as [c0 ->]. rewrite (cands_log A cfg). unfold upd. cbn [cands set_cands]. rewrite Ec, Hid. reflexivity. }
     set (s2 := defeat A cfg l "Defeat low quotient" s1) in *. destruct (crashed s2); [exact E2|].
     cbn [cands set_flag]. rewrite (cands_log A cfg). cbn [cands set_ballots]. exact E2.
+Qed.
+
+(* ================= sure-loser batches (wigm-prf-batch, meek, warren): batch_defeat ================= *)
+Definition rsum (l : list cand) : Z := fold_right (fun c acc => R (cvote c) + acc) 0 l.
+Lemma rsum_app l1 l2 : rsum (l1 ++ l2) = rsum l1 + rsum l2.
+Proof. unfold rsum. induction l1 as [|c l IH]; cbn [app fold_right]; [lia|rewrite IH; lia]. Qed.
+Lemma r_vsum_cands (l : list cand) : R (vsum A (map (@cvote A) l)) = rsum l.
+Proof. rewrite (r_vsum A S ZL). unfold rsum. induction l as [|c l IH]; cbn [map fold_right]; [reflexivity|]. rewrite IH. reflexivity. Qed.
+
+(* what the scan records: the first g+1 groups are few enough and their tallies plus the surplus stay below the first
+   candidate of the next group *)
+Definition sure (surp : T A) (maxDefeat : Z) (all : list (list cand)) (g : nat) : Prop :=
+  nlen (List.concat (firstn (Datatypes.S g) all)) <= maxDefeat /\
+  exists c rest, nth_error all (Datatypes.S g) = Some (c :: rest) /\ rsum (List.concat (firstn (Datatypes.S g) all)) + R surp < R (cvote c).
+
+Lemma nlen_app {X} (l1 l2 : list X) : nlen (l1 ++ l2) = nlen l1 + nlen l2.
+Proof. unfold nlen. rewrite app_length, Nat2Z.inj_add. reflexivity. Qed.
+
+Lemma firstn_snoc {X} (pre : list X) x rest : firstn (Datatypes.S (List.length pre)) (pre ++ x :: rest) = (pre ++ [x])%list.
+Proof. induction pre as [|y pre IH]; cbn [List.length app firstn]; [reflexivity|]. f_equal. exact IH. Qed.
+Lemma nth_after {X} (pre : list X) x y rest : nth_error (pre ++ x :: y :: rest) (Datatypes.S (List.length pre)) = Some y.
+Proof. induction pre as [|z pre IH]; cbn [List.length app nth_error]; [reflexivity|exact IH]. Qed.
+
+Lemma scan_groups_cons surp maxDefeat grp nxt (t' : list (list cand)) vote ncand g maxg :
+  scan_groups A surp maxDefeat (grp :: nxt :: t') vote ncand g maxg =
+  if maxDefeat <? ncand + nlen grp then maxg
+  else scan_groups A surp maxDefeat (nxt :: t') (add A vote (vsum A (map (@cvote A) grp))) (ncand + nlen grp) (Datatypes.S g)
+         (match nxt with
+          | c :: _ => if ltv A (add A (add A vote (vsum A (map (@cvote A) grp))) surp) (cvote c) then Some g else maxg
+          | [] => maxg end).
+Proof. reflexivity. Qed.
+
+Lemma scan_groups_sure surp maxDefeat (all : list (list cand)) : forall gs pre vote ncand maxg r,
+  all = (pre ++ gs)%list -> R vote = rsum (List.concat pre) -> ncand = nlen (List.concat pre) ->
+  (forall g0, maxg = Some g0 -> sure surp maxDefeat all g0) ->
+  scan_groups A surp maxDefeat gs vote ncand (List.length pre) maxg = Some r -> sure surp maxDefeat all r.
+Proof.
+  induction gs as [|grp t IH]; intros pre vote ncand maxg r Eall Ev En Hm Hs; [cbn in Hs; exact (Hm r Hs)|].
+  destruct t as [|nxt t']; [cbn in Hs; exact (Hm r Hs)|]. rewrite scan_groups_cons in Hs.
+  destruct (maxDefeat <? ncand + nlen grp) eqn:Elim; [exact (Hm r Hs)|]. apply Z.ltb_ge in Elim.
+  set (vote' := add A vote (vsum A (map (@cvote A) grp))) in *.
+  assert (Ev': R vote' = rsum (List.concat (pre ++ [grp]))).
+  { unfold vote'. rewrite (r_add A S ZL), r_vsum_cands, Ev, concat_app, rsum_app. cbn [List.concat]. rewrite app_nil_r. reflexivity. }
+  assert (En': ncand + nlen grp = nlen (List.concat (pre ++ [grp]))).
+  { rewrite concat_app, nlen_app, En. cbn [List.concat]. rewrite app_nil_r. reflexivity. }
+  assert (Efirst: firstn (Datatypes.S (List.length pre)) all = (pre ++ [grp])%list) by (rewrite Eall; apply firstn_snoc).
+  assert (El: Datatypes.S (List.length pre) = List.length (pre ++ [grp])) by (rewrite app_length; cbn [List.length]; lia).
+  rewrite El in Hs. refine (IH (pre ++ [grp])%list vote' (ncand + nlen grp) _ r _ Ev' En' _ Hs).
+  - rewrite Eall, <- app_assoc. reflexivity.
+  - intros g0 Hg0. destruct nxt as [|c rest]; [exact (Hm g0 Hg0)|].
+    destruct (ltv A (add A vote' surp) (cvote c)) eqn:Elt; [|exact (Hm g0 Hg0)].
+    injection Hg0 as <-. unfold sure. rewrite Efirst. split; [rewrite <- En'; exact Elim|].
+    exists c, rest. split; [rewrite Eall; apply nth_after|].
+    rewrite (r_ltv_exact A S ZL Hex), (r_add A S ZL), Ev' in Elt. apply Z.ltb_lt in Elt. exact Elt.
+Qed.
+
+(* every member of a group comes from the scanned list *)
+Lemma group_tied_in surp (l : list cand) : forall vote group acc c,
+  In c (List.concat (group_tied A surp l vote group acc)) -> In c l \/ In c group \/ In c (List.concat acc).
+Proof.
+  induction l as [|x l IH]; intros vote group acc c Hc; cbn [group_tied] in Hc.
+  - assert (G: forall (L : list (list cand)), In c (List.concat (rev L)) -> In c (List.concat L)).
+    { intros L H. apply in_concat in H. destruct H as (g & Hg & Hcg). apply in_concat. exists g. split; [apply in_rev; exact Hg|exact Hcg]. }
+    apply G in Hc. destruct group as [|g0 gr]; [right; right; exact Hc|].
+    cbn [List.concat] in Hc. apply in_app_or in Hc. destruct Hc as [Hc|Hc]; [right; left; apply in_rev; exact Hc|right; right; exact Hc].
+  - destruct (gev A (add A vote surp) (cvote x)).
+    + destruct (IH _ _ _ _ Hc) as [H|[H|H]]; [left; right; exact H| |right; right; exact H].
+      destruct H as [<-|H]; [left; left; reflexivity|right; left; exact H].
+    + destruct (IH _ _ _ _ Hc) as [H|[H|H]]; [left; right; exact H|destruct H as [<-|[]]; left; left; reflexivity|].
+      destruct group as [|g0 gr]; [right; right; exact H|]. cbn [List.concat] in H. apply in_app_or in H.
+      destruct H as [H|H]; [right; left; apply in_rev; exact H|right; right; exact H].
+Qed.
+
+Theorem batch_defeat_sure_losers surp (s : est) : batch_defeat A cfg surp s <> [] ->
+  nlen (batch_defeat A cfg surp s) <= nlen (hopefuls A s) - seats_left A cfg s /\
+  exists c, In c (hopefuls A s) /\ rsum (batch_defeat A cfg surp s) + R surp < R (cvote c).
+Proof.
+  unfold batch_defeat. cbv zeta. set (groups := group_tied A surp (by_vote A false (hopefuls A s)) (V0 A) [] []).
+  destruct (scan_groups A surp (nlen (hopefuls A s) - seats_left A cfg s) groups (V0 A) 0 0 None) as [g|] eqn:Es; [|intros H; contradiction].
+  intros _. assert (Hs: sure surp (nlen (hopefuls A s) - seats_left A cfg s) groups g).
+  { apply (scan_groups_sure surp _ groups groups [] (V0 A) 0 None g); try reflexivity; [unfold V0; rewrite (r_of_int A S ZL); reflexivity|intros g0 H; discriminate|exact Es]. }
+  destruct Hs as (Hn & c & rest & Hnth & Hlt). split; [exact Hn|]. exists c. split; [|exact Hlt].
+  assert (Hin: In c (List.concat groups)).
+  { apply in_concat. exists (c :: rest). split; [exact (nth_error_In _ _ Hnth)|left; reflexivity]. }
+  destruct (group_tied_in surp _ _ _ _ c Hin) as [H|[[]|[]]]. unfold by_vote in H. apply py_sorted_in in H. exact H.
 Qed.
 End LE.
